@@ -7,12 +7,16 @@ run() { # patch prop
   local patch=$1 prop=$2 name=$3
   cd /repo && git apply "$patch" || { echo -e "$name\t$prop\tpatch-does-not-apply\t" >> $OUT; return; }
   local line rc
-  line=$(cd /verif && VERIF_OUT=/var/tmp/seedmatrix-out python3 check.py $prop 2>&1 | grep -E "^(VIOLATION|UNDECIDED|OK)" | head -1 | cut -c1-220)
+  local all
+  all=$(cd /verif && VERIF_OUT=/var/tmp/seedmatrix-out python3 check.py $prop 2>&1 | grep -E "^(VIOLATION|UNDECIDED|OK|FAILED OBLIGATION)")
+  # a VIOLATION line wins over UNDECIDED lines printed before it; the first FAILED OBLIGATION names the deciding obligation
+  line=$(echo "$all" | grep -E "^VIOLATION" | head -1 | cut -c1-200)
+  if [ -n "$line" ]; then line="$line :: $(echo "$all" | grep -E "^FAILED OBLIGATION" | head -1 | cut -c1-160)"; else line=$(echo "$all" | grep -E "^(UNDECIDED|OK)" | head -1 | cut -c1-220); fi
   rc=$(echo "$line" | awk '{print $1}')
   cd /repo && git checkout -- .
   echo -e "$name\t$prop\t$rc\t$line" >> $OUT
 }
-declare -A EXTRA=( [C16-B]="C12" [C10-A]="C01" [C06-A]="C01" [C13-B]="C09" [C02-A]="C03" [C02-B]="C03" [C03-A]="C02" [C03-B]="C02" [C07-A]="C02" [C01-B]="C06" [C06-B]="C01" )
+declare -A EXTRA=( [C16-B]="C12" [C10-A]="C01" [C06-A]="C01" [C13-B]="C09" [C02-A]="C03" [C02-B]="C03" [C03-A]="C02" [C03-B]="C02" [C07-A]="C02" [C01-B]="C06" [C06-B]="C01" [C07-R2]="C02" [C06-R2]="C01" [C12-R2]="C16" [C16-R2]="C12" [C02-R2]="C03" [C03-R2]="C02" )
 claimed=$(python3 -c "import json;print(' '.join(json.load(open('/verif/props.json')).keys()))")
 for d in /verif/seeded/C*/; do
   id=$(basename $d); prop=${id%%-*}
